@@ -115,11 +115,12 @@ structure PartStatus where
   complete   : Nat × Nat
   deriving Repr, DecidableEq, Inhabited
 
-/-- index of the first non-nil entry, Go default `len-1` (caching.go:284-290). -/
+/-- index of the first non-nil entry (caching.go:284-290); with the repair the default for an
+    all-nil window is `len` (empty suffix), not `len-1` (which kept one nil entry). -/
 def firstNonNil (offs : List (Option Commit)) : Nat :=
   match offs.findIdx? Option.isSome with
   | some i => i
-  | none => offs.length - 1
+  | none => offs.length
 
 /-- Result of `evaluatePartitionStatus`.  `meets` is the outcome of the float32 comparison
     `status.Complete >= minimumComplete`, a parameter (exact float32 emulation in the driver).
